@@ -300,8 +300,11 @@ def run_zipf(n_cases, seed, work):
         return 'C++ build failed: ' + e[-800:], 0
     rc1, o1, e1 = sh(['timeout', '120', cfile + '.exe'])
     rc2, o2, e2 = sh(['timeout', '120', cppfile + '.exe'])
-    if rc1 or rc2:
-        return 'driver failed rc=%d/%d %s' % (rc1, rc2, (o1 + e1)[-200:]), 0
+    if bool(rc1) != bool(rc2):
+        return 'only one of the two drivers failed: rc=%d/%d %s' % (rc1, rc2, (o1 + e1)[-200:]), 0
+    if rc1 and rc2:
+        # both the extracted C and the real library stop at an out-of-range access (vector::at/array::at): compare what was printed before
+        o1 = o1.replace('OUT_OF_RANGE\n', '')
     l1, l2 = o1.split('\n'), o2.split('\n')
     for i, (a, b) in enumerate(zip(l1, l2)):
         if a != b:
